@@ -120,7 +120,7 @@ def fd_cases(ctx):
 
 
 def run(ctx):
-    nt = 12 if ctx.tier == 'quick' else 150
+    nt = 12 if ctx.tier == 'quick' else 600
     # (a) recording writer refusing its k-th write, every k, every shape: trace/pulls/error equal the model's; protocol holds
     cases = engine_cases(ctx, nt)
     args = [ec.model_arg(c) for c in cases]
